@@ -280,7 +280,7 @@ pub fn property(_ctx: &Ctx) -> Property {
             part_outside_c07("arc", 120_000, 2_500_000, arc_strategy, check_arc),
             part_outside_c07("transform", 50_000, 800_000, xf_strategy, check_xf),
         ],
-        min_class_fraction: vec![("arc", "negative-sweep", 0.3), ("arc", "beyond-full-turn", 0.1), ("arc", "multi-quad", 0.5), ("rect", "negative-size", 0.2)],
+        min_class_fraction: vec![("arc", "negative-sweep", 0.3), ("arc", "beyond-full-turn", 0.1), ("arc", "multi-quad", 0.5), ("rect", "negative-size", 0.2), ("transform", "xf:unit-diagonal-shear", 0.01)],
         panic_is_violation: false,
     }
 }
